@@ -34,6 +34,32 @@ pub fn t2_with_string_id(template: &[u8], id: &[u8]) -> T2 {
     t
 }
 
+/// format-2 table with one entry per string id (all un-ignored, no conditions)
+pub fn t2_with_string_ids(template: &[u8], ids: &[&[u8]]) -> T2 {
+    let entries = ids
+        .iter()
+        .map(|id| {
+            let mut e = E2::plain();
+            e.id = IdSpec::StrLen(id.len() as u16);
+            e
+        })
+        .collect();
+    let mut t = t2_of(entries);
+    t.template = template.to_vec();
+    t.string_data = Some(ids.concat());
+    t
+}
+
+pub fn nul_id_groups() -> Vec<Vec<&'static [u8]>> {
+    vec![
+        vec![&[0, b'a'], &[b'a']],
+        vec![&[b'a'], &[0, b'a']],
+        vec![&[0, 0, b'a'], &[0, b'a'], &[b'a']],
+        vec![&[b'a'], &[b'a', 0]],
+        vec![&[0], &[0, 0], &[]],
+    ]
+}
+
 fn all_def() -> Def {
     Def {
         cps: DCps::AllExcept(vec![]),
@@ -207,6 +233,12 @@ pub fn string_ids() -> Vec<Vec<u8>> {
         b"abcde".to_vec(),
         "àbc".as_bytes().to_vec(),
         vec![0x00],
+        // NUL bytes are ordinary id bytes for string ids (only numeric ids drop leading zero bytes)
+        vec![0, 0],
+        vec![0, b'a'],
+        vec![b'a', 0],
+        vec![b'a', 0, b'b'],
+        vec![0, 0, b'a'],
         vec![0xFF],
         vec![0xFB, 0xFF, 0xBF],
     ];
@@ -235,6 +267,10 @@ pub fn spaces_templates(ctx: &Ctx, base: &BaseTables) {
         for s in &sids {
             tables.push(TableModel::F2(t2_with_string_id(t, s)));
         }
+        // several entries whose id strings differ only by NUL bytes: distinct URIs
+        for g in nul_id_groups() {
+            tables.push(TableModel::F2(t2_with_string_ids(t, &g)));
+        }
         // format 1: entry index = id (u8 and u16 wide tables)
         for (max, idx) in [(3u16, 3u16), (300, 300), (0xFFFF, 0xFFFF)] {
             let mut applied = vec![0u8; bitmap_len(max)];
@@ -256,7 +292,7 @@ pub fn spaces_templates(ctx: &Ctx, base: &BaseTables) {
         }
     }
     ctx.run.count("uri_template_tables", tables.len() as u64);
-    ctx.run.sample(json!({"space":"tmpl","table": tables[3 * (nids.len() + sids.len() + 3) + 4]}));
+    ctx.run.sample(json!({"space":"tmpl","table": tables[3 * (nids.len() + sids.len() + 3 + nul_id_groups().len()) + 4]}));
     let (tables, defs, sds) = (&tables, &defs, &sds);
     let chunk = 32;
     par_for(tables.len().div_ceil(chunk), |c| {
